@@ -422,6 +422,9 @@ def run_batch(prop, scen_name, tier, base_seed, n_runs, wall_budget, jobs=16, sr
     own = sorted(s for s in viol_by_sig if s.startswith(prop + '.'))
     new_sigs = [s for s in own if match_known(known, prop, s) is None and viol_by_sig[s]['first'] is not None]
     total_min = 60.0 if tier == 'quick' else 300.0
+    if os.environ.get('VERIF_MINIMISE_S'):
+        # (self-tests that only need the verdict: mutants, seeded changes)
+        total_min = float(os.environ['VERIF_MINIMISE_S'])
     per_sig = max(6.0, total_min / max(1, len(new_sigs)))
     for sig in own:
         ent = viol_by_sig[sig]
